@@ -1,0 +1,13 @@
+//go:build !verif
+
+package server
+
+import "github.com/vicanso/elton"
+
+func verifListen(_ *server, _ *elton.Elton) (bool, error) {
+	return false, nil
+}
+
+func verifCloseListener(_ *server) bool {
+	return false
+}
